@@ -524,7 +524,7 @@ theorem to_changes_tag_only (t sp : Tag) (s : Sc) (n : Nat) :
   simp [ty1]
 
 
-theorem scLinear_diff' (s : Sc) (hs : scLinear s = true) : scAffineDiff s = some s := by
+theorem scLinear_diff (s : Sc) (hs : scLinear s = true) : scAffineDiff s = some s := by
   cases s <;> simp_all [scLinear, scAffineDiff]
 
 /-! ### Rejections between like operands are exactly the misuses
@@ -540,7 +540,7 @@ theorem vec_add_reject_class (o : Op2) (ho : o = .add ∨ o = .sub ∨ o = .mAdd
       mis2 o (.vec s n sp) (.vec s n' sp') = some .mixDim := by
   have hne : ¬ (n = n' ∧ sp = sp') := by
     rintro ⟨rfl, rfl⟩
-    have hd := scLinear_diff' s hs
+    have hd := scLinear_diff s hs
     rcases ho with rfl | rfl | rfl | rfl <;> simp [ty2, tyAdd, tySub, affineDiff, hd, hs] at h
   by_cases hsp : sp = sp'
   · subst hsp
@@ -596,9 +596,6 @@ is accepted (statements over arbitrary contexts and arbitrary well-typed operand
 
 section Twins
 variable (Γ : Ctx)
-
-theorem scLinear_diff (s : Sc) (hs : scLinear s = true) : scAffineDiff s = some s := by
-  cases s <;> simp_all [scLinear, scAffineDiff]
 
 /-- **mix-space / mix-dim, vectors**: `a + b`, `a - b`, `a.add(&b)` are accepted iff space tag and
 dimension agree; with an explicit `b.to::<Sp>()` the space no longer matters. -/
